@@ -17,6 +17,8 @@ P4  enumeration, spec -> impl: TLC explores command lines x states reachable by 
     (plus ~680 abbreviations and case / punctuation variants at two roots) and for a catalogue of ~130 command
     lines; harness/g06 starts the real shell (simulated OS) with that command line and the script
     <witness; operation> for every (state, operation) and compares every observation.
+P4  the same catalogue of command lines through the true entry point yash_cli::main() on the real OS (exit
+    status of an invalid command line, --help / --version, $-, $#, $0, "$@" printed with /bin/echo).
 P4  validation, impl -> spec: seeded random command lines and operation sequences run by the real shell,
     recorded and judged by TLC (spec/Trace_SetOpts.tla).
 """
@@ -32,7 +34,7 @@ PKG = "yv-g06"
 
 TIERS = {
     "quick": {"gen": "Gen_SetOpts_quick.cfg", "random": (6000, 6), "timeout": 600},
-    "thorough": {"gen": "Gen_SetOpts_thorough.cfg", "random": (60000, 8), "timeout": 3000},
+    "thorough": {"gen": "Gen_SetOpts_thorough.cfg", "random": (40000, 8), "timeout": 3000},
 }
 
 OBS = 'obs "$-" "$#" "$0" "$*" "$@"'
@@ -46,16 +48,35 @@ def _key(direction, what, argv, pre, op, field):
     return {"dir": direction, "what": what, "argv": " ".join(argv), "pre": pre, "op": op, "field": field}
 
 
+CHUNK = 20000      # records per TLC run (one big JSON file makes the JVM thrash)
+
+
 def _validate(trace, timeout, workers=6):
-    """Run Trace_SetOpts over `trace`; returns ({1-based record index: verdict}, records, wall)."""
+    """Run Trace_SetOpts over `trace` (in chunks); returns ({1-based record index: verdict}, records, wall)."""
     n = vlib.count_lines(trace)
     if n == 0:
         return {}, 0, 0.0
-    r = vlib.tlc("Trace_SetOpts", "Trace_SetOpts.cfg", workers=workers, timeout=timeout, env={"TRACE": os.path.abspath(trace)})
-    vlib.tlc_must_pass(r, "trace validation Trace_SetOpts")
-    if r.distinct != 2 * n - 1:
-        raise vlib.ToolError(f"trace validation reached {r.distinct} of {2 * n - 1} index ranges")
-    return {j["i"]: j for j in r.json}, n, r.wall
+    verdicts, wall, done = {}, 0.0, 0
+    with open(trace) as f:
+        while done < n:
+            part = trace + ".part"
+            k = 0
+            with open(part, "w") as g:
+                for line in f:
+                    g.write(line)
+                    k += 1
+                    if k == CHUNK:
+                        break
+            r = vlib.tlc("Trace_SetOpts", "Trace_SetOpts.cfg", workers=workers, timeout=timeout, env={"TRACE": os.path.abspath(part)})
+            vlib.tlc_must_pass(r, "trace validation Trace_SetOpts")
+            if r.distinct != 2 * k - 1:
+                raise vlib.ToolError(f"trace validation reached {r.distinct} of {2 * k - 1} index ranges")
+            for j in r.json:
+                verdicts[done + j["i"]] = dict(j, i=done + j["i"])
+            wall += r.wall
+            done += k
+            os.remove(part)
+    return verdicts, n, wall
 
 
 def run(tier):
@@ -112,8 +133,22 @@ def _run(tier, cfgs, wd, rep, side, th, t0):
                       f"{json.dumps(m['obs']['evs'][-3:])[:900]} exit {m['obs']['exit']} ({m['obs']['outcome']}) "
                       f"(deviating: {m['field']})")
         rep.violation(_key("spec->impl", m["what"], m["argv"], _cmds(m["prelines"]), _cmds(m["lines"]), m["field"]), detail, m)
+    # the catalogue of command lines once more through the true entry point yash_cli::main() on the real OS
+    rmis = os.path.join(wd, "real-mismatch.ndjson")
+    _, out, _ = vlib.run_harness(PKG, ["real", "--in", gen, "--out", rmis], timeout=cfgs["timeout"])
+    real = json.loads(out.strip().splitlines()[-1])
+    if real["real_cases"] == 0:
+        raise vlib.ToolError("the real-OS stage ran no command line")
+    vlib.log(f"[p4] real OS, yash_cli::main(): {real['real_cases']} command lines ({real['kinds']}; {real['skipped']} need another "
+             f"argv[0] or are left open), {real['mismatches']} deviation(s)")
+    for m in vlib.read_ndjson(rmis):
+        rep.violation(_key("spec->impl", "real", m["argv"], "", "", m["field"]),
+                      f"real OS, true entry point: command line {m['argv']}: the specification prescribes '{m['k']}'"
+                      f"{' with first observation ' + json.dumps(m['exp'][0]) if m['exp'] else ''}; observed "
+                      f"{json.dumps(m['obs'])[:600]} (deviating: {m['field']})", m)
     os.remove(gen)
     os.remove(mis)
+    os.remove(rmis)
 
     # ---- impl -> spec -------------------------------------------------------
     runs, length = cfgs["random"]
@@ -151,7 +186,7 @@ def _run(tier, cfgs, wd, rep, side, th, t0):
     vlib.tlc_must_pass(side["c"], "calibration examples Calib_SetOpts")
 
     rc = rep.finish()
-    cases = summ["cases"] + summ["starts"]
+    cases = summ["cases"] + summ["starts"] + real["real_cases"]
     vlib.write_evidence(PID, tier, {
         "states": states,
         "transitions": transitions,
@@ -166,6 +201,7 @@ def _run(tier, cfgs, wd, rep, side, th, t0):
         "bounds": {"cfg": cfgs["gen"], "depth": r.depth, "tlc_wall_s": round(r.wall, 1), "fan": summ["fan"],
                    "bigfan": summ["bigfan"]},
         "enumeration": {k: summ[k] for k in ("states", "cases", "starts", "unspec", "mismatches", "by_kind", "by_effect")},
+        "real_os_entry_point": real,
         "random": dict(rsumm, verdicts=counts),
         "known_finding_hits": {fid: n for fid, (_, n) in rep.known_hits.items()},
         "not_covered": ["interactive shells (-i, terminals, job-control side of -m, ignoreeof, prompts)",
@@ -173,7 +209,8 @@ def _run(tier, cfgs, wd, rep, side, th, t0):
                         "the output of `set` without arguments (C07), write errors of the listings (status 1)",
                         "the effect of the options other than errexit and exec on later commands (C02 / C10 and others)",
                         "non-ASCII characters in option names, IFS other than the default for \"$*\"",
-                        "exit status of the shell for command line errors (only error / no error is observed)"],
+                        "command lines started under another name than the harness binary on the real OS (sh, -yash: "
+                        "simulated OS only)"],
     }, time.time() - t0, violations=len(rep.violations), assumptions=[
         "an invalid `set` / `shift` command changes neither options nor parameters (the manual says status 2 / "
         "'error'; atomicity is how the project's tests read it)",
